@@ -42,6 +42,7 @@ class SetMutator(CollectionAttrMutator):
                 f"Attempted to add an invalid item `{repr(item)}` to `{self.attr_spec.qualified_name}`. Expected item of type `{type_label(self.attr_spec.item_type)}`."
             )
         if index is not MISSING and replace:
+            hash(item)  # An unhashable item must fail before anything is removed.
             self.collection.discard(index)
         self.collection.add(item)
 
